@@ -211,6 +211,11 @@ def run_check(prop_id, tier, seed):
             broken.append('model does not build: %s:%d %s (%s)' % (e['file'], e['line'], e['msg'][:200], e['decl']))
         if not b1['errors']:
             broken.append('model does not build: ' + b1['log'][-800:])
+    else:
+        try:
+            leanbuild.private_driver()
+        except Exception as ex:
+            ctx.note('could not take a private copy of the driver: %r' % (ex,))
     b2 = leanbuild.build(mod.LEAN_TARGETS)
     failed_decls = set()
     if not b2['ok']:
